@@ -96,6 +96,28 @@ def run(ctx):
 
     _matches_table(ctx, P)
 
+    # ---- R6 DELETE/INSERT WHERE: every delete is applied before any insert (SPARQL 1.1 Update: the result is
+    # (G minus all deletions) plus all insertions, over the solutions computed once). If a delete is reachable after
+    # an insert, a triple inserted for one solution can be removed again for a later one.
+    mo = P.method("RdfModifyOperator", "Operator", "next")
+    rm = {P.fn("RdfStore::remove").id, P.fn("RdfStore::remove_in_tx").id}
+    ins = {P.fn("RdfStore::insert").id, P.fn("RdfStore::insert_in_tx").id}
+    rblocks = [bi for bi, t in mo.calls() if callee_name(t) in rm]
+    iblocks = [bi for bi, t in mo.calls() if callee_name(t) in ins]
+    ctx.floor("R6", len(rblocks), 1, "delete applications in RdfModifyOperator::next")
+    ctx.floor("R6", len(iblocks), 1, "insert applications in RdfModifyOperator::next")
+    bad = [(i, r) for i in iblocks for r in rblocks if r in mo.reachable_blocks(i)]
+    ctx.ob("R6", "RdfModifyOperator#deletes-before-inserts", not bad,
+           what="RdfModifyOperator applies a DELETE template after an INSERT template has been applied (the two passes are "
+                "interleaved per solution): a triple inserted for one solution is deleted again for a later one and the "
+                "result depends on solution order", where=mo.loc())
+    # ... and the solutions are collected before the first modification
+    nx = [bi for bi, t in mo.calls() if (t["f"] or "").endswith("Operator::next")]
+    bad2 = [n for n in nx if any(n in mo.reachable_blocks(x) for x in rblocks + iblocks)]
+    ctx.ob("R6", "RdfModifyOperator#solutions-first", bool(nx) and not bad2,
+           what="RdfModifyOperator pulls further solutions from its WHERE input after it has started modifying the store: the "
+                "pattern is evaluated against a store its own update has already changed", where=mo.loc())
+
     # ---- R4 find_with_pending
     g = P.fn("RdfStore::find_with_pending")
     gx = FlowCx(P, g)
